@@ -150,13 +150,28 @@ func c02R1R4(c *Ctx) {
 		c.LostAnchor(R1, "traversal function (claims the node with Tracker.TryCommit and dispatches with syncutil.Go) in package ~")
 		return
 	}
-	for _, T := range ts {
-		tn := FnName(T)
-		slices := c02DispatchedSlices(T)
-		if len(slices) == 0 {
-			c.LostAnchor(R1, tn+": the slice dispatched with syncutil.Go")
+	for _, T0 := range ts {
+		// the function that dispatches the successors and pushes the node: the
+		// traversal function itself, or the helper it hands the claimed node to
+		T := c02DispatchBody(T0, 2)
+		if T == nil {
+			c.LostAnchor(R1, FnName(T0)+": the slice dispatched with syncutil.Go")
 			continue
 		}
+		if T != T0 {
+			bad := false
+			for _, p := range c02Pushes(T0, nil) {
+				if g, _ := c02CalleeOf(p); g == nil || c02DispatchBody(g, 1) != T {
+					c.Undecided(R1, FnName(T0)+"|push:"+CalleeName(p), p.Pos(), "the traversal function pushes outside the helper ("+FnName(T)+") that dispatches and waits for the successors; their order cannot be decided")
+					bad = true
+				}
+			}
+			if bad {
+				continue
+			}
+		}
+		tn := FnName(T)
+		slices := c02DispatchedSlices(T)
 		except := map[ssa.Instruction]bool{}
 		for _, S := range slices {
 			for _, d := range c02DispatchCalls(T, S, 0) {
@@ -179,16 +194,28 @@ func c02R1R4(c *Ctx) {
 			}
 			cutR1 := newCut().Edges(lenZeroEdges(T, S)...)
 			isSite := map[ssa.Instruction]bool{}
+			okErrs := map[ssa.Value]bool{}
 			for _, st := range sites {
 				cutR1.Edges(st.Edges...)
 				cutR1.Instr(st.Instr)
 				isSite[st.At] = true
+				if st.Err != nil {
+					okErrs[st.Err] = true
+				}
 			}
 			for _, p := range pushes {
 				if isSite[p.(ssa.Instruction)] {
 					continue
 				}
 				ok := len(sites) > 0 && MustPass(p.(ssa.Instruction), cutR1)
+				if !ok && len(sites) > 0 {
+					// path-sensitive: `if err == nil { err = next() }` chains
+					var exceeded bool
+					if ok, exceeded = c02MustPassPS(T, p.(ssa.Instruction), cutR1, okErrs); exceeded {
+						c.Undecided(R1, tn+"|push:"+CalleeName(p), p.Pos(), "too many distinct paths to this push effect")
+						continue
+					}
+				}
 				c.Check(R1, tn+"|push:"+CalleeName(p), p.Pos(), ok,
 					ifelse(ok, "every path to the push takes the len(successors)==0 edge or leaves the wait for all successors on its success edge",
 						"a path reaches this push effect without waiting for the node's successors (neither the empty-successors edge nor the completed wait is on it)"))
